@@ -22,4 +22,24 @@ def Reg.add (acc member : Reg K V) : Reg K V := member.foldl (fun a e => a.setde
 /-- a `CombinedRegistry` after `<<`-ing the members in order -/
 def Reg.combine (members : List (Reg K V)) : Reg K V := members.foldl Reg.add []
 
+
+/-! ## resistance of a plasmid -/
+
+inductive ResErr where
+  | multiple     -- "multiple resistance cassettes detected"
+  | notFound     -- "could not find the resistance of …"
+deriving DecidableEq, Repr
+
+/-- `moclo.registry._utils.find_resistance(record)`: features in order; the set of a feature's labels is
+intersected with the cassette tags; two tags on one feature are an error, one tag decides, none moves on -/
+def findResistance (table : List (Nat × Nat)) : List (List Nat) → Except ResErr Nat
+  | [] => .error .notFound
+  | labels :: rest =>
+    match (labels.eraseDups).filter (fun l => table.any (fun e => e.1 == l)) with
+    | [] => findResistance table rest
+    | [c] => match table.find? (fun e => e.1 == c) with
+      | some e => .ok e.2
+      | none => .error .notFound
+    | _ => .error .multiple
+
 end Moclo
